@@ -264,7 +264,7 @@ def gen_oracle_only(tier, seed):
     for h in hs:
         for s in ['0%', '25%', '50%', '91%', '100%', '150%']:
             for l in ['0%', '10%', '30%', '43%', '50%', '70%', '90%', '100%', '120%']:
-                out.append(('fn', ('hsl', (h, s, l), rnd.choice([None, None, '.3']))))
+                out.append(('fn', ('hsl', (h, s, l), rnd.choice([None, None, '.3', '0', '1', '1.5', '-0.5', '2']))))
     return out
 
 
